@@ -227,7 +227,7 @@ def plan(prop, tier):
               B("Z", 3 if q else 4, runs=runs_todates, configs=cfg_two_methods, sample=600 if q else 20000),
               B("C", 3, runs=runs_prefixes, configs=cfg_two_methods, sample=2500 if q else 20000),
               B("C", 7, sim=250 if q else 4000, depth=7, runs=runs_prefixes, configs=cfg_methods),      # longer mixed-offset histories: a later lot must not disturb earlier pairings
-              B("W", 4, runs=runs_prefixes, configs=cfg_two_methods, sample=5000 if q else None),      # wall-clock order against instant order, exhaustive to 4 transactions in thorough
+              B("W", 4, runs=runs_prefixes, configs=cfg_two_methods, sample=5000 if q else 40000),     # wall-clock order against instant order (145k histories to 4 transactions: sampled)
               B("A", 12, sim=100 if q else 2000, depth=12, runs=runs_todates, configs=cfg_two_methods)]
     elif prop == "C10":
         mc = [("Y", 3, "valid", "single")] if q else [("Y", 3, "valid", "all")]      # (depth 4 of this slice does not finish within the time limit)
